@@ -255,7 +255,7 @@ def single_cases(tier, seed):
   if tier == "quick":
     shape = [(0, 3), (1, 3), (2, 2), (3, 2), (4, 1)]       # (existing size, max batch size)
   else:
-    shape = [(0, 3), (1, 3), (2, 3), (3, 3), (4, 3)]
+    shape = [(0, 3), (1, 3), (2, 3), (3, 3), (4, 2)]
   # family "straddle": two runs of adjacent floats meeting at a 2**a-ulp boundary above 1.0 (so the
   # relabelling blocks of the two places differ and the second relabelling re-adjusts rows already
   # adjusted by the first), every pair of one place in the left run and one in the right run
@@ -563,7 +563,7 @@ def main():
                        "every (left place, right place) pair" % (14 if tier == "quick" else 24),
     "single_calls": ("existing<=1 x batch<=3, existing=2..3 x batch<=2, existing=4 x batch<=1"
                      if tier == "quick" else
-                     "existing<=4 x batch<=3 (complete) + 1.8M sampled: sub-lists <=6 of 64 adjacent "
+                     "existing<=3 x batch<=3, existing=4 x batch<=2 (complete) + 1.8M sampled: sub-lists <=6 of 64 adjacent "
                      "floats at 6 magnitudes + specials, batch<=3"),
     "sequences": "1600 x 70 steps" if tier == "quick" else "40000 x 120 steps",
     "engine": "seed docs basic, refs; histories of 7 bundles; position-focused action mix "
@@ -577,17 +577,17 @@ def main():
     requires=lambda a: valid_input(a["existing"], a["keys"]),
     ensures={c: _clause(c) for c in CLAUSES}, classify=_classify, nontrivial=_relabelled,
     show=lambda a: {"existing": list(a["existing"]), "keys": list(a["keys"])})
-  fn.check(rep, single, single_cases, exhaustive=False, limit_quick_s=20, limit_thorough_s=500)
+  fn.check(rep, single, single_cases, exhaustive=False, limit_quick_s=20, limit_thorough_s=420)
 
   seq = fn.FnContract(
     name="relabeling.prepare_inserts[insertion sequences]", call=_sequence_call,
     ensures={c: _clause(c) for c in CLAUSES + ("C20.harness",)}, classify=_classify,
     nontrivial=_seq_nontrivial)
-  fn.check(rep, seq, sequence_cases, exhaustive=False, limit_quick_s=10, limit_thorough_s=300)
+  fn.check(rep, seq, sequence_cases, exhaustive=False, limit_quick_s=10, limit_thorough_s=200)
 
   from vlib.rtc import explore
   explore.explore(rep, "checks.C20", "PositionsMonitor", n_quick=96, n_thorough=6000,
-                  budget_quick_s=15, budget_thorough_s=300)
+                  budget_quick_s=15, budget_thorough_s=240)
   rep.coverage["exhaustive"] = False
   rep.coverage["exhaustive_part"] = ("part 1's enumerated pool is complete for the sizes stated in "
                                      "bound.single_calls; parts 2 and 3 are seeded samples")
